@@ -329,6 +329,55 @@ def present(v, t, pres="plain", vint=False):
     return v, t
 
 
+# ---- presentation of every mesh the implementation constructs while a case is being evaluated
+_ACTIVE = {"pres": None, "vint": False, "installed": False}
+
+
+def relayout(v, t, pres, vint):
+    """same values and dtypes (except index width for 't-int32' / integer coordinates for `vint`), different memory presentation"""
+    v = np.asarray(v); t = np.asarray(t)
+    if v.ndim != 2 or t.ndim != 2 or v.shape[1] != 3 or t.shape[1] not in (3, 4) or not np.issubdtype(t.dtype, np.integer):
+        return v, t
+    if vint and np.issubdtype(v.dtype, np.floating) and v.dtype == np.float64 and np.all(v == np.round(v)) and np.abs(v).max() < 1e9:
+        v = v.astype(np.int64)
+    if pres == "transposed" and (t.shape[1] != 3 or len(v) < 4 or len(t) < 4):
+        pres = "t-fortran"
+    if pres == "t-fortran":
+        t = np.asfortranarray(t)
+    elif pres == "vt-fortran":
+        t = np.asfortranarray(t); v = np.asfortranarray(v)
+    elif pres == "t-int32":
+        t = t.astype(np.int32)
+    elif pres == "transposed":
+        t = np.ascontiguousarray(t.T); v = np.ascontiguousarray(v.T)
+    elif pres == "strided":
+        tt = np.zeros((len(t), 2 * t.shape[1]), dtype=t.dtype); tt[:, ::2] = t; t = tt[:, ::2]
+        vv = np.zeros((2 * len(v), 3), dtype=v.dtype); vv[::2] = v; v = vv[::2]
+    return v, t
+
+
+def use(case):
+    """from now on every TriaMesh / TetMesh the harness (or LaPy itself) constructs receives its arrays in the presentation recorded in
+    `case` (keys `pres`, `vdtype`); `use(None)` switches it off.  Values are never changed, so results must not change either."""
+    case = case if isinstance(case, dict) else {}
+    _ACTIVE["pres"] = case.get("pres") or None
+    _ACTIVE["vint"] = case.get("vdtype") == "int64"
+    if not _ACTIVE["installed"]:
+        from lapy import TriaMesh, TetMesh
+        for cls in (TriaMesh, TetMesh):
+            orig = cls.__init__
+
+            def init(self, v, t, *a, _orig=orig, **kw):
+                if _ACTIVE["pres"] or _ACTIVE["vint"]:
+                    try:
+                        v, t = relayout(v, t, _ACTIVE["pres"], _ACTIVE["vint"])
+                    except Exception:  # noqa: BLE001
+                        pass
+                _orig(self, v, t, *a, **kw)
+            cls.__init__ = init
+        _ACTIVE["installed"] = True
+
+
 def add_trailing_free(rng, v, t, k=2):
     """append k unused vertices at the END of the vertex array"""
     return np.vstack([v, rng.uniform(-1, 1, (k, 3))]), t.copy()
@@ -390,7 +439,7 @@ def tria_stream(seed, n, size="small", classes=None, modifiers=True):
                 if rng.random() < 0.3:
                     t = permute_elems(rng, t); tags.add("permuted")
             case = dict(v=v, t=t, tags=tags, name=name)
-            if modifiers:
+            if True:
                 # how the same mesh is handed to the implementation (values unchanged): memory layout, index dtype, integer coordinates
                 pres = ["plain", "plain", "plain", "t-fortran", "vt-fortran", "t-int32", "transposed", "strided"][int(rng.integers(0, 8))]
                 if pres == "transposed" and (len(v) < 4 or len(t) < 4 or len(v) == 3 or len(t) == 3):
@@ -484,7 +533,7 @@ def tet_stream(seed, n, size="small", modifiers=True):
                 if rng.random() < 0.3:
                     t = permute_elems(rng, t); tags.add("permuted")
             case = dict(v=v, t=t, tags=tags, name=name)
-            if modifiers:
+            if True:
                 # how the same mesh is handed to the implementation (values unchanged): memory layout, index dtype, integer coordinates
                 pres = ["plain", "plain", "plain", "t-fortran", "vt-fortran", "t-int32", "transposed", "strided"][int(rng.integers(0, 8))]
                 if pres == "transposed" and (len(v) < 4 or len(t) < 4 or len(v) == 3 or len(t) == 3):
